@@ -12,6 +12,24 @@ VERIF = Path(__file__).resolve().parent.parent
 
 # id -> (level category, technique, level text, level note, design section)
 CHECKS = {
+    "C05": (
+        "exploration",
+        "Hypothesis differential search vs an independent numpy.fft closed-form assembler (part A); generated refinement triples n,2n,4n with an order-of-convergence oracle (part B)",
+        "Part A compares analytic mode with an independently written closed form on every generated configuration to 1e-11; part B measures the observed order against the analytic solution inside a calibrated sub-regime (r <= 0.5, growth <= e^10): ratio >= 5.5 per halving (calibration on the repaired tree: min 6.97 over 10186 halvings; pinned tree: 2.4-4.6).",
+        "Order asserted only for r <= 0.5, n >= 8, growth <= e^10; asymptotic statement checked at three refinements.",
+    ),
+    "C17": (
+        "exploration",
+        "Hypothesis round-trip and reference-model search (spherical destination / haversine / initial bearing)",
+        "Round trips to 1e-9 deg / 1e-6 m, orientation, and agreement with independent great-circle formulas to the property's 0.1 % / 0.1 deg over generated reference points and offsets.",
+        "Sphere R = 6 371 000 m; |lat| <= 60; offsets <= 5 km; no antimeridian wrap.",
+    ),
+    "C20": (
+        "exploration",
+        "Hypothesis search against brute-force O(n^2) oracles on dyadic-valued fields (exact arithmetic), metamorphic relations (monotone transform, permutation, scaling, p-monotonicity)",
+        "Every cell's rescaled value is bracketed by brute-force sums (equal for untied cells); percentile contours compared with the minimal-count definition exactly.",
+        "Float-valued g; dyadic field values so that sums are exact.",
+    ),
     "C02": (
         "exploration",
         "Hypothesis metamorphic search: footprint call vs forward call on the same generated inputs (reciprocity identity)",
